@@ -181,4 +181,25 @@ PROPS["C14"] = {
     "level_note": "Record heap (no quantification over the registry); callbacks havocked; engine and z3 trusted.",
 }
 
+PROPS["C06"] = {
+    "contracts": ["contracts/C06_quorum.py"],
+    "level": "other",
+    "extra": [{"name": "C06/bounded[electorates<=3]", "kind": "bounded", "tiers": ("quick",), "cmd": ["/venv/bin/python", "native/c06_bounded.py", "3"]},
+              {"name": "C06/bounded[electorates<=5]", "kind": "bounded", "tiers": ("thorough",), "timeout": 3000, "cmd": ["/venv/bin/python", "native/c06_bounded.py", "5"]}],
+    "assumptions": ["weights >= 0, 0 <= confidence <= 1; custom thresholds in (0,1) (counts for THRESHOLD); colony non-empty",
+                    "ghost sums: sum(expr for v in L [if F]) is one real constant per (list, expr, filters) with: empty list => 0, non-negative terms => non-negative sum "
+                    "(sum of a concatenation = sum of the parts); ghost counters per VoteType with the 4-way partition identity P+B+A+D = n (lemma library; not re-proved by z3)",
+                    "the unanimity clause is read on votes the strategy counts (weight*confidence > 0, confidence >= 0.3 for CONFIDENCE): the statement's 'always PERMIT' "
+                    "contradicts its own 'only if the criterion is met' for zero-weight permits",
+                    "agents (BioAgent.express) and _protein_to_vote are havocked in run_vote; _protein_to_vote's own mapping is proved separately"],
+    "trusted_base": ["z3 nonlinear real arithmetic for the ratio criteria"],
+    "explanation": "Deductive part, for electorates of ANY size: each aggregator is proved equal to its stated criterion over (|P|,|B|, weighted sums) together with "
+                   "'reached iff PERMIT' and 'no permit vote => not reached'; monotonicity and unanimity are lemmas over the criteria (pure arithmetic, z3); "
+                   "_aggregate_votes: reported counts equal the ballots (ghost counters), min-voters gate; run_vote: one ballot per voter, failed voters abstain. "
+                   "Bounded part (labelled bounded): electorates 1..3 (5 thorough) x all assignments x weight/confidence patterns x strategies x thresholds, incl. the "
+                   "relational monotonicity checks on the real code. BAYESIAN is a recorded known finding.",
+    "level_text": "Mixed proof + bounded; one strategy (BAYESIAN) is a known finding.",
+    "level_note": "Ghost sums/counters are engine-level abstractions with stated axioms; engine and z3 trusted.",
+}
+
 NOT_APPLICABLE = {}
